@@ -428,7 +428,13 @@ func (h *RequestHeader) AppendBytes(dst []byte) []byte {
 	if n > 0 {
 		dst = append(dst, bytestr.StrCookie...)
 		dst = append(dst, bytestr.StrColonSpace...)
+		m := len(dst)
 		dst = appendRequestCookieBytes(dst, h.cookies)
+		// cookie names and values come from the application like any other header value:
+		// neutralise line breaks in them as appendHeaderLine does
+		for i := m; i < len(dst); i++ {
+			dst[i] = bytesconv.NewlineToSpaceTable[dst[i]]
+		}
 		dst = append(dst, bytestr.StrCRLF...)
 	}
 
